@@ -45,9 +45,7 @@ pub struct CoseRecipient {
     pub recipients: Vec<CoseRecipient>,
 }
 
-impl crate::CborSerializable for CoseRecipient {}
-
-«use crate::header::{prot_ok, prot_res, hdr_ok, hdr_res, hdr_cv, hdr_encodable};
+impl crate::CborSerializable for CoseRecipient {}«use crate::header::{prot_ok, prot_res, hdr_ok, hdr_res, hdr_cv, hdr_encodable};
 // COSE_recipient = [ Headers, ciphertext: bstr / nil, ? recipients: [+COSE_recipient] ]  (recursive)
 pub open spec fn recipient_ok(v: Value) -> bool
     decreases v, 1nat
@@ -83,6 +81,7 @@ pub open spec fn recipients_encodable(s: Seq<CoseRecipient>) -> bool
     decreases s, 0nat
 { forall |j: int| 0 <= j < s.len() ==> recipient_encodable(#[trigger] s[j]) }
 »
+
 impl AsCborValue for CoseRecipient {«
     open spec fn dec_rel(value: Value, r: Result<Self>) -> bool { (r is Ok <==> recipient_ok(value)) && (r matches Ok(x) ==> recipient_res(value, x)) }
     open spec fn enc_rel(self, r: Result<Value>) -> bool { (r is Ok <==> recipient_encodable(self)) && (r matches Ok(v) ==> vv(v) == recipient_cv(self)) }»
@@ -311,9 +310,7 @@ impl crate::CborSerializable for CoseEncrypt {}
 
 impl crate::TaggedCborSerializable for CoseEncrypt {
     #[verifier::external_body] const TAG: u64 = iana::CborTag::CoseEncrypt as u64;
-}
-
-«pub open spec fn encrypt_ok(v: Value) -> bool {
+}«pub open spec fn encrypt_ok(v: Value) -> bool {
     v is Array && arr_of(v).len() == 4 && prot_ok(arr_of(v)[0], 0) && hdr_ok(arr_of(v)[1], 0) && is_bytes_or_null(arr_of(v)[2]) && recipients_ok(arr_of(v)[3])
 }
 pub open spec fn encrypt_res(v: Value, x: CoseEncrypt) -> bool {
@@ -336,6 +333,7 @@ pub proof fn lemma_recipients_array_err(s: Vec<CoseRecipient>, e: CoseError)
     ensures !recipients_encodable(s@),
 { broadcast use crate::util::axiom_iter_enc_err_vec; }
 »
+
 impl AsCborValue for CoseEncrypt {«
     open spec fn dec_rel(value: Value, r: Result<Self>) -> bool { (r is Ok <==> encrypt_ok(value)) && (r matches Ok(x) ==> encrypt_res(value, x)) }
     open spec fn enc_rel(self, r: Result<Value>) -> bool { (r is Ok <==> encrypt_encodable(self)) && (r matches Ok(v) ==> vv(v) == encrypt_cv(self)) }»
@@ -520,9 +518,7 @@ impl crate::CborSerializable for CoseEncrypt0 {}
 
 impl crate::TaggedCborSerializable for CoseEncrypt0 {
     #[verifier::external_body] const TAG: u64 = iana::CborTag::CoseEncrypt0 as u64;
-}
-
-«pub open spec fn encrypt0_ok(v: Value) -> bool {
+}«pub open spec fn encrypt0_ok(v: Value) -> bool {
     v is Array && arr_of(v).len() == 3 && prot_ok(arr_of(v)[0], 0) && hdr_ok(arr_of(v)[1], 0) && is_bytes_or_null(arr_of(v)[2])
 }
 pub open spec fn encrypt0_res(v: Value, x: CoseEncrypt0) -> bool {
@@ -531,6 +527,7 @@ pub open spec fn encrypt0_res(v: Value, x: CoseEncrypt0) -> bool {
 pub open spec fn encrypt0_cv(x: CoseEncrypt0) -> CV { CV::Array(seq![CV::Bytes(prot_slot(x.protected)), hdr_cv(x.unprotected), opt_bytes_cv(x.ciphertext)]) }
 pub open spec fn encrypt0_encodable(x: CoseEncrypt0) -> bool { prot_encodable(x.protected) && hdr_encodable(x.unprotected) }
 »
+
 impl AsCborValue for CoseEncrypt0 {«
     open spec fn dec_rel(value: Value, r: Result<Self>) -> bool { (r is Ok <==> encrypt0_ok(value)) && (r matches Ok(x) ==> encrypt0_res(value, x)) }
     open spec fn enc_rel(self, r: Result<Value>) -> bool { (r is Ok <==> encrypt0_encodable(self)) && (r matches Ok(v) ==> vv(v) == encrypt0_cv(self)) }»
